@@ -77,3 +77,49 @@ pub struct ClientBuilder(pub BuilderState);
 
 // `impl ClientBuilder { <sliced fn> }`
 include!("gen/max_idle_timeout_client.rs");
+
+// ---- Worker::handle_uni_h3_stream / handle_bi_h3_stream --------------------------------------------------------
+use crate::driver::streams::biremote::StreamBiRemoteH3;
+use crate::driver::streams::qpack::{RemoteQPackDecStream, RemoteQPackEncStream};
+use crate::driver::streams::session::StreamSession;
+use crate::driver::streams::settings::RemoteSettingsStream;
+use crate::driver::streams::uniremote::StreamUniRemoteH3;
+use crate::driver::utils::TrySendError;
+use tracing::debug;
+use wtransport_proto::frame::{Frame, FrameKind};
+use wtransport_proto::headers::Headers;
+use wtransport_proto::session::{HeadersParseError, SessionRequest};
+use wtransport_proto::stream_header::StreamKind;
+
+/// MODEL of the bounded hand-off queue `BiChannelEndpoint<StreamSession>`: try_send outcome scripted
+/// (0 accepted, 1 full, 2 closed); counts accepted sessions
+pub struct ModelSessionQueue {
+    pub outcome: u8,
+    pub accepted: std::cell::Cell<usize>,
+}
+
+impl ModelSessionQueue {
+    pub fn try_send(&self, value: StreamSession) -> Result<(), TrySendError<StreamSession>> {
+        match self.outcome {
+            0 => {
+                self.accepted.set(self.accepted.get() + 1);
+                core::mem::forget(value);
+                Ok(())
+            }
+            1 => Err(TrySendError::Full(value)),
+            _ => Err(TrySendError::Closed(value)),
+        }
+    }
+}
+
+/// host of `Worker::handle_uni_h3_stream` / `Worker::handle_bi_h3_stream` (wtransport/src/driver/mod.rs): the fields
+/// those two methods touch, with the real (re-hosted) stream-slot types
+pub struct WorkerH {
+    pub remote_settings_stream: RemoteSettingsStream,
+    pub remote_qpack_enc_stream: RemoteQPackEncStream,
+    pub remote_qpack_dec_stream: RemoteQPackDecStream,
+    pub ready_sessions: ModelSessionQueue,
+}
+
+// `impl WorkerH { <sliced handle_uni_h3_stream> <sliced handle_bi_h3_stream> }`
+include!("gen/worker_handlers.rs");
